@@ -189,7 +189,7 @@ func runOnce(src string, k int, useCtx bool, opt ...string) *runResult {
 	mode, probe := "", false
 	for _, o := range opt {
 		switch o {
-		case "thread", "bare":
+		case "thread", "bare", "reattach":
 			mode = o
 		case "probe":
 			probe = true
@@ -212,6 +212,16 @@ func runOnce(src string, k int, useCtx bool, opt ...string) *runResult {
 			run, _ = L.NewThread()
 			run.SetContext(ctx)
 		} else {
+			if mode == "reattach" {
+				// the state served an earlier piece of work under a context that has
+				// ended since; the new context replaces it (with or without a removal)
+				old, cancelOld := context.WithCancel(context.Background())
+				L.SetContext(old)
+				cancelOld()
+				if k%2 == 1 {
+					L.RemoveContext()
+				}
+			}
 			L.SetContext(ctx)
 		}
 	} else if mode == "thread" {
@@ -367,6 +377,9 @@ func runProgram(c *fw.Ctx, pi int, p1 int, onlyK int, count bool, mode string) {
 		// the same enumeration with the context on a thread state: every 4th poll, offset by the variant
 		kStep, kOff = 4, p1%4
 	}
+	if mode == "reattach" {
+		kStep, kOff = 5, p1%5
+	}
 	c.Begin(base)
 	var ref *runResult
 	if p.terminates {
@@ -382,8 +395,11 @@ func runProgram(c *fw.Ctx, pi int, p1 int, onlyK int, count bool, mode string) {
 		ref = runOnce(src, K+400, true, mode) // reference: cut well after the enumerated range
 	}
 	c.End(true, fmt.Sprintf("%s/%d/ref/%s", p.name, p1, mode))
-	if count && mode != "" {
+	if count && mode == "thread" {
 		c.Count("programs_with_context_on_thread_only", 1)
+	}
+	if count && mode == "reattach" {
+		c.Count("programs_with_a_context_replacing_an_ended_one", 1)
 	}
 	if count {
 		c.Count("programs", 1)
@@ -549,6 +565,7 @@ func run(c *fw.Ctx) {
 			p1 := int(c.SubRand("p1", pi*100+v).Int31n(1000))
 			runProgram(c, pi, p1, 0, true, "")
 			runProgram(c, pi, p1, 0, true, "thread")
+			runProgram(c, pi, p1, 0, true, "reattach")
 			if bareOK[programs[pi].name] {
 				runProgram(c, pi, p1, 0, true, "bare")
 			}
